@@ -2,16 +2,35 @@
    memory-safe, assert-free, terminating, makes exactly one callback and hands out only bounded
    results - for EVERY server byte stream, EVERY segmentation of it (including EAGAIN rounds), EVERY
    way the connection ends (EOF, error, stall), EVERY body limit, HEAD or not, and EVERY initial
-   geometry of the reader's buffer.
+   geometry of the reader's buffer; and a well-formed response whose body is longer than the limit IS
+   reported as bodylen = (size_t)(-1), body = NULL with its own status and headers.
    Only statements closed by [exact], with Print Assumptions.
 
    The hypotheses: [rdr_ok r0] - the reader starts in a state netbuf_read can be in
    (bufpos <= datalen <= buflen <= SSIZE_MAX, window = the unconsumed bytes; Example init_rdr_ok shows
    the state netbuf_read_init creates satisfies it) and [limit < 2^64] (it is a size_t).
    [repo_terminated] is the translator's reading of whether callback_chunkedheader NUL-terminates the
-   chunk-size line; [stale] is the content of the allocation behind the data, irrelevant now. *)
+   chunk-size line; [stale] is the content of the allocation behind the data, irrelevant now.
+
+   What "never Fault" covers.  The model reads the server's bytes through the window of the abstract
+   reader (arrived, not yet consumed bytes; the netbuf area proves the real netbuf_read implements that
+   window), so the header search, sgetline, findeol and the copies out of the window are in bounds by
+   construction and their side conditions are the asserts (AssertFail).  Three accesses are NOT in
+   bounds by construction and go through checked memory, i.e. the model answers Fault when they leave
+   their object:
+     - the object PARSENUM_EX reads in callback_chunkedheader (the window with the NUL written over the
+       CR - or, for the old code, the window followed by the rest of the allocation): every byte is
+       fetched with CheckedMem.rd;
+     - addbody's memcpy(&body[bodylen], buf, buflen): Fault unless bodylen + buflen <= the new
+       allocation size computed by the doubling/clamping code;
+     - callback_readdata's read of H->chunked, which http_request2 does not initialise: Fault if no
+       assignment has been made on the path.
+   Allocation failure is NOT in this model: malloc/realloc/netbuf_read_wait/events succeed, so the
+   die() paths are absent except the one the server can force (the wrapped header count, outcome
+   Died, shown unreachable by C08_http_one_callback).  Behaviour under allocation failure is the
+   subject of C14 (correspondence run with every allocation refused in turn). *)
 From Coq Require Import NArith ZArith List.
-From LCP Require Import Base.CheckedMem Gen.Repo_http Http.HttpStrto Http.HttpModel Http.HttpSpec Http.HttpSafe.
+From LCP Require Import Base.CheckedMem Gen.Repo_http Http.HttpStrto Http.HttpModel Http.HttpSpec Http.HttpSafe Http.HttpDecode Http.HttpRoundtrip Http.HttpOversize.
 Import ListNotations.
 Local Open Scope N_scope.
 
@@ -65,6 +84,74 @@ Theorem C08_cb_ok_meaning :
      (blen = size_max /\ bnull = true /\ body = [])).
 Proof. exact cb_ok_spelled. Qed.
 Print Assumptions C08_cb_ok_meaning.
+
+(* M3, the oversize clause as an OUTCOME (C08_http_result_bounds only bounds the shape): for every
+   well-formed response r (HttpSpec.wf_response, the same objects as in C09) whose body is longer than
+   the limit, every segmentation [segs] of the rendered bytes (empty segments = EAGAIN rounds), every
+   reader state holding a prefix of them, and EVERY ending [e] of the connection: exactly one
+   callback, and it is oversized r.  Together with C09_decode_wellformed (body <= limit) no model that
+   answered callback(NULL) or handed out a truncated body could satisfy both.
+   The three `toobig' call sites of http.c are the three framings: get_body_gotclen (Content-Length
+   above the limit, reported from the header block), callback_chunkedheader (the chunk-size line whose
+   chunk would cross the limit, the earlier chunks being already stored), callback_read_toeof
+   (buffered + arrived data above the limit).  Non-trivial instances, computed: Examples ex_big_hyps,
+   ex_clen_oversized, ex_chunked_oversized (limit = body - 1, crossing in the 2nd chunk, detection at
+   the size line), ex_close_oversized (HttpOversize.v). *)
+Theorem C08_oversized_body_reported :
+  forall stale r0 limit ishead r segs e,
+    wf_response ishead r = true -> limit < lenN (resp_body r) -> limit < two64 ->
+    rdr_ok r0 -> r_win r0 ++ concat segs = render r ->
+    http_response_run repo_terminated stale r0 limit ishead (mkNet segs e) = Ok (Done [oversized r]).
+Proof. exact oversized_body_reported. Qed.
+Print Assumptions C08_oversized_body_reported.
+
+(* what oversized r is: the final status, the (name, value) pairs of the final header block in order
+   (framing header included), body pointer NULL, bodylen = SIZE_MAX = (size_t)(-1), no bytes *)
+Theorem C08_oversized_meaning :
+  forall r,
+    oversized r = CbResp (Z.of_N (m_status (p_final r)))
+                         (map (fun f => (f_name f, f_value f)) (final_fields r)) true size_max [].
+Proof. exact oversized_meaning. Qed.
+Print Assumptions C08_oversized_meaning.
+
+(* the three framings spelled out, whole response in one read into a fresh reader, any ending *)
+Theorem C08_oversized_clen :
+  forall stale limit ishead r pos e,
+    wf_response ishead r = true -> p_framing r = FrClen pos -> limit < lenN (p_body r) ->
+    http_response_run repo_terminated stale init_rdr limit ishead (mkNet [render r] e)
+    = Ok (Done [CbResp (Z.of_N (m_status (p_final r))) (map nv (final_fields r)) true size_max []]).
+Proof. exact oversized_clen. Qed.
+Print Assumptions C08_oversized_clen.
+
+Theorem C08_oversized_chunked :
+  forall stale limit ishead r pos cs ld le tr e,
+    wf_response ishead r = true -> p_framing r = FrChunked pos cs ld le tr ->
+    limit < lenN (concat (map c_data cs)) ->
+    http_response_run repo_terminated stale init_rdr limit ishead (mkNet [render r] e)
+    = Ok (Done [CbResp (Z.of_N (m_status (p_final r))) (map nv (final_fields r)) true size_max []]).
+Proof. exact oversized_chunked. Qed.
+Print Assumptions C08_oversized_chunked.
+
+Theorem C08_oversized_close :
+  forall stale limit ishead r e,
+    wf_response ishead r = true -> p_framing r = FrClose -> limit < lenN (p_body r) -> limit < two64 ->
+    http_response_run repo_terminated stale init_rdr limit ishead (mkNet [render r] e)
+    = Ok (Done [CbResp (Z.of_N (m_status (p_final r))) (map nv (final_fields r)) true size_max []]).
+Proof. exact oversized_close. Qed.
+Print Assumptions C08_oversized_close.
+
+(* both sides of the limit in one statement: whatever the limit, a well-formed response produces exactly
+   the callback HttpSpec.expect_limited limit r = if |body| <= limit then expect r else oversized r
+   (a body delimited by the close needs the EOF to be complete - only when it is within the limit) *)
+Theorem C08_limit_respected :
+  forall stale r0 limit ishead r segs e,
+    wf_response ishead r = true -> limit < two64 ->
+    rdr_ok r0 -> r_win r0 ++ concat segs = render r ->
+    (p_framing r = FrClose -> lenN (resp_body r) <= limit -> e = EndEof) ->
+    http_response_run repo_terminated stale r0 limit ishead (mkNet segs e)
+    = Ok (Done [expect_limited limit r]).
+Proof. exact limit_respected. Qed.
+Print Assumptions C08_limit_respected.
 
 (* regression for finding F2 (repaired): the same step function WITHOUT the NUL termination reads
    past the reader's allocation on "headers, CRLF, blanks up to offset 4096" *)
